@@ -1,2 +1,140 @@
--- placeholder driver (model for C18 not built yet)
-def main : IO Unit := pure ()
+/-
+  Driver for the thread-pool model (C18).
+    seq <min> <max> <n> {op}*        op = S <worker|-> | F <job> | C
+        after every op all workers are run to rest; prints one snapshot per op, separated by " ; "
+        (`S w`: the real pool's set.pop() chose worker w; the model is told the same choice)
+    outs <min> <max> <progA> <progB>  prog = comma separated S | F<job> | C   ("-" = empty)
+        every interleaving of the two client threads and all workers (coarse semantics); prints the
+        sorted set of snapshots of the states in which nothing can move any more, separated by " ; "
+  snapshot:  c<closed> i<|idle|> b<|busy|> J <job>* W <worker>*
+        job = a<worker>|n|x  r<times started> e<ended>      worker = X exited | I waiting for a job | R<job> | P (can move)
+-/
+import PyroModel.Pool
+import Driver.Util
+import Std.Data.HashSet
+
+open Pyro Pyro.Pool Driver
+
+def jobStr (s : St) (j : Nat) : String :=
+  let st := match s.accepted.find? (·.1 == j) with
+    | some (_, w) => s!"a{w}"
+    | none => if s.refusedFull.contains j then "n" else if s.refusedClosed.contains j then "x" else "?"
+  let r := (s.started.filter (·.1 == j)).length
+  let e := (s.ended.filter (· == j)).length
+  s!"{st}r{r}e{e}"
+
+def workerStr (s : St) (x : Worker) : String :=
+  match x.phase with
+  | .exited => "X"
+  | .waiting => if x.ev then "P" else "I"
+  | .running j => if s.fin.contains j then "P" else s!"R{j}"
+  | _ => "P"
+
+def snap (s : St) : String :=
+  let c := if s.closed then 1 else 0
+  s!"c{c} i{s.idle.length} b{s.busy.length} J " ++ " ".intercalate ((List.range s.nextJob).map (jobStr s)) ++
+    " W " ++ " ".intercalate (s.ws.map (workerStr s))
+
+inductive Op where
+  | S (w : Option Nat)
+  | F (j : Nat)
+  | C
+  deriving Repr, Hashable, DecidableEq
+
+def pickFor (s : St) (w : Option Nat) : Nat :=
+  match w with
+  | none => 0
+  | some w => s.idle.findIdx (· == w)
+
+def applyOp (mn mx : Nat) (s : St) : Op → St
+  | .S w => step mn mx s (.submit (pickFor s w))
+  | .F j => step mn mx s (.finish j)
+  | .C => step mn mx s .close
+
+def parseSeq : Nat → List String → Option (List Op)
+  | 0, [] => some []
+  | n + 1, "S" :: w :: rest => do
+    let r ← parseSeq n rest
+    pure (.S (if w == "-" then none else w.toNat?) :: r)
+  | n + 1, "F" :: j :: rest => do
+    let k ← j.toNat?
+    let r ← parseSeq n rest
+    pure (.F k :: r)
+  | n + 1, "C" :: rest => do
+    let r ← parseSeq n rest
+    pure (.C :: r)
+  | _, _ => none
+
+def parseProg (s : String) : Option (List Op) :=
+  if s == "-" then some [] else
+  (s.splitOn ",").mapM fun t =>
+    if t == "S" then some (.S none)
+    else if t == "C" then some .C
+    else if t.startsWith "F" then (t.drop 1).toString.toNat?.map .F
+    else none
+
+def runSeq (mn mx : Nat) (ops : List Op) : List String :=
+  let rec go (s : St) : List Op → List String
+    | [] => []
+    | op :: rest =>
+      let s1 := settle mn mx 14 (applyOp mn mx s op)
+      snap s1 :: go s1 rest
+  snap (settle mn mx 14 (init mn)) :: go (init mn) ops
+
+structure Node where
+  st : St
+  a : List Op
+  b : List Op
+  deriving Hashable, DecidableEq
+
+def opSuccs (mn mx : Nat) (s : St) : Op → List St
+  | .S _ =>
+    if s.idle.isEmpty then [step mn mx s (.submit 0)]
+    else (List.range s.idle.length).map fun k => step mn mx s (.submit k)
+  | .F j => [step mn mx s (.finish j)]
+  | .C => [step mn mx s .close]
+
+def succs (mn mx : Nat) (n : Node) : List Node :=
+  let pa := match n.a with
+    | [] => []
+    | op :: rest => (opSuccs mn mx n.st op).map fun s => { n with st := s, a := rest }
+  let pb := match n.b with
+    | [] => []
+    | op :: rest => (opSuccs mn mx n.st op).map fun s => { n with st := s, b := rest }
+  let pw := (List.range n.st.ws.length).filterMap fun w =>
+    let s := wstep mn mx n.st w
+    if s == n.st then none else some { n with st := s }
+  pa ++ pb ++ pw
+
+/-- worklist exploration with a visited set; `fuel` bounds the number of expansions -/
+def explore (mn mx : Nat) : Nat → List Node → Std.HashSet Node → List String → Option (List String)
+  | 0, [], _, outs => some outs
+  | 0, _ :: _, _, _ => none
+  | _ + 1, [], _, outs => some outs
+  | fuel + 1, n :: todo, seen, outs =>
+    if seen.contains n then explore mn mx fuel todo seen outs
+    else
+      let seen := seen.insert n
+      let nx := succs mn mx n
+      if nx.isEmpty then explore mn mx fuel todo seen (snap n.st :: outs)
+      else explore mn mx fuel (nx ++ todo) seen outs
+
+def dedupSorted (l : List String) : List String :=
+  let a := l.toArray.qsort (· < ·)
+  a.toList.eraseDups
+
+def step' : List String → String
+  | "seq" :: mn :: mx :: n :: rest =>
+    match mn.toNat?, mx.toNat?, n.toNat?.bind (fun k => parseSeq k rest) with
+    | some mn, some mx, some ops => " ; ".intercalate (runSeq mn mx ops)
+    | _, _, _ => "bad-op"
+  | ["outs", mn, mx, pa, pb] =>
+    match mn.toNat?, mx.toNat?, parseProg pa, parseProg pb with
+    | some mn, some mx, some a, some b =>
+      match explore mn mx 400000 [{ st := init mn, a := a, b := b }] {} [] with
+      | some outs => " ; ".intercalate (dedupSorted outs)
+      | none => "fuel"
+    | _, _, _, _ => "bad-op"
+  | _ => "bad-op"
+
+def main : IO Unit := runDriver step'
